@@ -201,7 +201,8 @@ class Builtin2Mixin:
         i = smt.fresh('ai', smt.Int)
         st.assume(z3.Length(new) == z3.Length(old) + 1)
         st.assume(new[z3.Length(old)] == xt)
-        st.assume(z3.ForAll([i], z3.Implies(AND(i >= 0, i < z3.Length(old)), new[i] == old[i])))
+        body = z3.Implies(AND(i >= 0, i < z3.Length(old)), new[i] == old[i])
+        st.assume(z3.ForAll([i], body))
         return self.ok(st, self.py_none())
 
     def bm_list_extend(self, st, selfv, args, node):
